@@ -34,7 +34,10 @@ RULE = ('dynamic: case = (public function from the call table, scenario = genera
         'float64 arguments, checks the arguments are unchanged, calls again (identical result), then with '
         'Fortran-ordered, strided-view and (if all values are integral) int64 representations; index-valued '
         'and structural results must be identical, float-valued results equal to 1e-12 relative.  '
-        'Non-trivial: the call returned a non-empty result on >= 8 points.  linkage: every global-name '
+        'Non-trivial: the call returned a non-empty result on >= 8 points.  small: the same oracle on 2..7-point '
+        'curves with the smallest option values (limit 3.., t2 2..; only linkage errors incl. UnboundLocalError, '
+        'impurity, nondeterminism and representation dependence count; rejecting a short curve with another '
+        'exception is tolerated).  linkage: every global-name '
         'load, every attribute chain rooted at a module or class object, every call whose target resolves '
         'to a Python function of kneeliverse or uts (arity via inspect.signature.bind) and every '
         'function-local import, enumerated exhaustively; non-trivial = site that resolves into another '
